@@ -73,6 +73,7 @@ RULES.append(rule_reserved_names)
 # ---------------------------------------------------------------------------
 YB1, YB2, YB3, YB4, YB5 = T.YS_B[1:6]
 YS1, YS2, YS3, YS4 = T.YS_S[1:5]
+UTIL = 'pymtl3/passes/backends/verilog/util/utility.py'
 VB1, VB2 = T.SV_B[1], T.SV_B[2]
 
 
@@ -161,24 +162,37 @@ MUTANTS = [
     _m('yosys-nested-ifc-ports-only', YS3, "all_properties = ifc.get_all_properties_packed()", "all_properties = ifc.get_all_ports_packed()", 'R-tr-ifc-source'),
     _m('port-map-ifc-ports-only', T.YS_UTIL, "in ifc.get_all_properties_packed():", "in ifc.get_all_ports_packed():", 'R-tr-ifc-source'),
     _m('subcomp-ifc-ports-only', T.G_S4, "all_ifc_ports = ifc_port_rtype.get_all_properties_packed()", "all_ifc_ports = ifc_port_rtype.get_all_ports_packed()", 'R-tr-ifc-source'),
-    dict(name='freevar-bits-formatted-as-decimal', rule='R-tr-width-cast', edits=[
-        dict(file=YB1, old="    if isinstance( node.obj, int ):\n      nbits = node.Type.get_dtype().get_length()\n      return f\"{nbits}'d{node.obj}\"\n    elif isinstance( node.obj, Bits ):\n      nbits = node.obj.nbits\n      value = int( node.obj )\n      return f\"{nbits}'d{value}\"\n",
-             new="    if isinstance( node.obj, ( int, Bits ) ):\n      nbits = node.Type.get_dtype().get_length()\n      return f\"{nbits}'d{node.obj}\"\n", count=1)]),
     _m('const-attr-bits-formatted-as-decimal', YB1, "        value = int( obj )\n        node.sexpr['s_attr'] = f\"{nbits}'d{value}\"", "        value = obj\n        node.sexpr['s_attr'] = f\"{nbits}'d{value}\"", 'R-tr-width-cast'),
     _m('wire-name-not-checked', YS1, "    assert isinstance( dtype, rdt.Vector )\n    s.check_decl( id_, \"\" )\n    return s.wire_vector_gen( id_, dtype, n_dim )", "    assert isinstance( dtype, rdt.Vector )\n    return s.wire_vector_gen( id_, dtype, n_dim )",
        'R-C13-reserved'),
     _m('range-start-forgotten', T.GEN[2], "      # range( start, end )\n      start = s.visit( args[0] )\n      end = s.visit( args[1] )", "      # range( start, end )\n      start = bir.Number( 0 )\n      end = s.visit( args[1] )",
        'R-tr-range'),
-    # re-introductions of the defects repaired by c03_else_begin / c03_operand_parens_and_sext / c03_bool_literal (stale without them)
+    # re-introductions of the repaired statement-grouping / parenthesisation / literal defects
     dict(name='freevar-bits-formatted-as-decimal-2', rule='R-tr-width-cast', edits=[
-        dict(file=YB1, old="    if isinstance( node.obj, int ):\n      nbits = node.Type.get_dtype().get_length()\n      return f\"{nbits}'d{int(node.obj)}\"\n    elif isinstance( node.obj, Bits ):\n      nbits = node.obj.nbits\n      value = int( node.obj )\n      return f\"{nbits}'d{value}\"\n",
+        dict(file=YB1, old="    if isinstance( node.obj, int ):\n      nbits = node.Type.get_dtype().get_length()\n      return sized_decimal( nbits, node.obj )\n    elif isinstance( node.obj, Bits ):\n      nbits = node.obj.nbits\n      value = int( node.obj )\n      return f\"{nbits}'d{value}\"\n",
              new="    if isinstance( node.obj, ( int, Bits ) ):\n      nbits = node.Type.get_dtype().get_length()\n      return f\"{nbits}'d{node.obj}\"\n", count=1)]),
-    _m('yosys-cast-branches-swapped-2', YB1, "      if cur_nbits > nbits:\n        msb = nbits-1", "      if cur_nbits < nbits:\n        msb = nbits-1", 'R-tr-slice'),
-    _m('yosys-freevar-unsized-2', YB1, """      return f"{nbits}'d{int(node.obj)}\"""", """      return f"{int(node.obj)}\"""", 'R-tr-width-cast'),
-    _m('yosys-const-attr-unsized-2', YB1, """        node.sexpr['s_attr'] = f"{nbits}'d{int(obj)}\"""", """        node.sexpr['s_attr'] = f"{int(obj)}\"""", 'R-tr-width-cast'),
+    _m('yosys-freevar-unsized-2', YB1, "      return sized_decimal( nbits, node.obj )", "      return f\"{int(node.obj)}\"", 'R-tr-width-cast'),
+    _m('yosys-const-attr-unsized-2', YB1, "        node.sexpr['s_attr'] = sized_decimal( nbits, obj )", "        node.sexpr['s_attr'] = f\"{int(obj)}\"", 'R-tr-width-cast'),
+    _m('yosys-truncate-of-expression-accepted', YB1, "        if isinstance( node.value, ( bir.IfExp, bir.UnaryOp, bir.BinOp, bir.Compare ) ):\n          # Verilog-2005",
+       "        if False and isinstance( node.value, ( bir.IfExp, bir.UnaryOp, bir.BinOp, bir.Compare ) ):\n          # Verilog-2005", 'R-tr-slice'),
+    _m('yosys-truncate-refusal-misses-compare', YB1, "        if isinstance( node.value, ( bir.IfExp, bir.UnaryOp, bir.BinOp, bir.Compare ) ):\n          # Verilog-2005",
+       "        if isinstance( node.value, ( bir.IfExp, bir.UnaryOp, bir.BinOp ) ):\n          # Verilog-2005", 'R-tr-slice'),
+    _m('yosys-cast-branches-swapped', YB1, "      if cur_nbits > nbits:\n        if isinstance(", "      if cur_nbits < nbits:\n        if isinstance(", 'R-tr-slice'),
+    _m('sext-arith-adds-the-sign-weight', VB1, "^ {sign} ) - {sign} )\"", "^ {sign} ) + {sign} )\"", 'R-tr-slice'),
+    _m('sext-expression-falls-to-bit-select', VB1, "    if isinstance( node.value, ( bir.IfExp, bir.UnaryOp, bir.BinOp, bir.Compare ) ):\n      # The msb of an expression",
+       "    if isinstance( node.value, ( bir.IfExp, bir.UnaryOp, bir.Compare ) ):\n      # The msb of an expression", 'R-tr-slice'),
     _m('yosys-for-begin-counts-ir-statements', YB2, "begin    = ' begin' if s.count_stmts( node.body ) > 1 else ''", "begin    = ' begin' if len( node.body ) > 1 else ''", 'R-tr-assign'),
-    _m('yosys-freevar-without-int', YB1, "'d{int(node.obj)}", "'d{node.obj}", 'R-tr-width-cast'),
-    _m('yosys-const-attr-without-int', YB1, "'d{int(obj)}", "'d{obj}", 'R-tr-width-cast'),
+    _m('yosys-freevar-without-int', YB1, "      return sized_decimal( nbits, node.obj )", "      return f\"{nbits}'d{node.obj}\"", 'R-tr-width-cast'),
+    _m('yosys-const-attr-without-int', YB1, "        node.sexpr['s_attr'] = sized_decimal( nbits, obj )", "        node.sexpr['s_attr'] = f\"{nbits}'d{obj}\"", 'R-tr-width-cast'),
+    # negative Python ints: <W>'d-1 is not Verilog; every literal of a user-supplied int holds the two's complement
+    _m('literal-helper-without-wrap', UTIL, "  value = int( value )\n  if value < 0:\n    value += 1 << nbits\n", "  value = int( value )\n", 'R-tr-width-cast'),
+    _m('literal-helper-wraps-at-half-range', UTIL, "    value += 1 << nbits\n", "    value += 1 << (nbits-1)\n", 'R-tr-width-cast'),
+    _m('literal-helper-without-int', UTIL, "  value = int( value )\n  if value < 0:\n    value += 1 << nbits\n", "  if value < 0:\n    value += 1 << nbits\n", 'R-tr-width-cast'),
+    _m('yosys-sizecast-constant-back-to-plain (a67892d)', YB1, "    return sized_decimal( nbits, value )\n", "    return f\"{nbits}'d{value}\"\n", 'R-tr-slice'),
+    _m('yosys-freevar-back-to-plain-int', YB1, "      return sized_decimal( nbits, node.obj )", "      return f\"{nbits}'d{int(node.obj)}\"", 'R-tr-width-cast'),
+    _m('yosys-const-attr-back-to-plain-int', YB1, "        node.sexpr['s_attr'] = sized_decimal( nbits, obj )", "        node.sexpr['s_attr'] = f\"{nbits}'d{int(obj)}\"", 'R-tr-width-cast'),
+    _m('yosys-struct-field-literal-back-to-plain-int', YB3, "  def _literal_number( s, nbits, value ):\n    return sized_decimal( nbits, value )", "  def _literal_number( s, nbits, value ):\n    return f\"{nbits}'d{int(value)}\"", 'R-tr-width-cast'),
+    _m('yosys-port-literal-back-to-plain-int', T.SV_S[1], "  def _literal_number( s, nbits, value ):\n    return sized_decimal( nbits, value )", "  def _literal_number( s, nbits, value ):\n    return f\"{nbits}'d{int(value)}\"", 'R-tr-width-cast'),
     _m('yosys-cast-identity-unparenthesised', YB1, "        # The operand itself takes the place of the cast\n        return s.visit_expr_wrap( node.value )",
        "        # The operand itself takes the place of the cast\n        return s.visit( node.value )", 'R-tr-slice'),
     _m('else-end-counts-ir-statements', T.SV_B[2], "      if s.count_stmts( node.orelse ) > 1:\n        src.extend( [ 'end' ] )", "      if len( node.orelse ) > 1:\n        src.extend( [ 'end' ] )", 'R-tr-assign'),
@@ -189,11 +203,8 @@ MUTANTS = [
        "    s.deq[-1]['index'].append( int(start) )\n    s.deq[-1]['index'].append( int(_stop) )", 'R-tr-slice'),
     _m('yosys-cast-truncation-msb', YB1, "msb = nbits-1", "msb = nbits", 'R-tr-slice'),
     _m('yosys-cast-zero-count', YB1, "n_zero = nbits - cur_nbits", "n_zero = nbits", 'R-tr-slice'),
-    _m('yosys-cast-branches-swapped', YB1, "      elif cur_nbits > nbits:", "      elif cur_nbits < nbits:", 'R-tr-slice'),
-    _m('yosys-freevar-unsized', YB1, """      return f"{nbits}'d{node.obj}\"""", """      return f"{node.obj}\"""", 'R-tr-width-cast'),
     _m('yosys-loopvar-unsized', YB2, """    return f"{nbits}'(__loopvar__{s.blk.__name__}_{node.name})\"""", """    return f"__loopvar__{s.blk.__name__}_{node.name}\"""",
        'R-tr-width-cast'),
-    _m('yosys-const-attr-unsized', YB1, """        node.sexpr['s_attr'] = f"{nbits}'d{obj}\"""", """        node.sexpr['s_attr'] = f"{obj}\"""", 'R-tr-width-cast'),
     _m('yosys-explicit-name-only-for-top', T.YS_TR, "    if structural.component_explicit_module_name:\n", "    if structural.component_explicit_module_name and structural.component_is_top:\n",
        'R-tr-modname'),
     _m('yosys-subcomp-explicit-name-ignored', YS4, "    elif subcomp_explicit_name:\n", "    elif False and subcomp_explicit_name:\n", 'R-tr-modname'),
@@ -235,7 +246,13 @@ MUTANTS = [
 ]
 
 EQUIV = [
-    _m('cast-comparison-flipped-2', YB1, "      if cur_nbits > nbits:\n        msb = nbits-1", "      if nbits < cur_nbits:\n        msb = nbits-1"),
+    _m('count-stmts-as-accumulator-loop', T.SV_B[2], "    return sum( len( stmt.targets ) if isinstance( stmt, bir.Assign ) else 1\n                for stmt in stmts )",
+       "    n_stmts = 0\n    for stmt in stmts:\n      if isinstance( stmt, bir.Assign ):\n        n_stmts += len( stmt.targets )\n      else:\n        n_stmts += 1\n    return n_stmts"),
+    _m('literal-helper-wraps-by-modulo', UTIL, "  if value < 0:\n    value += 1 << nbits\n", "  value %= 1 << nbits\n"),
+    _m('literal-helper-wraps-by-power-of-two', UTIL, "  if value < 0:\n    value += 1 << nbits\n", "  if value < 0:\n    value = value + 2**nbits\n"),
+    _m('yosys-freevar-inlines-the-helper', YB1, "      return sized_decimal( nbits, node.obj )", "      value = int( node.obj ) % ( 1 << nbits )\n      return f\"{nbits}'d{value}\""),
+    _m('yosys-const-attr-masks-the-value', YB1, "        node.sexpr['s_attr'] = sized_decimal( nbits, obj )", "        value = int( obj ) & ( ( 1 << nbits ) - 1 )\n        node.sexpr['s_attr'] = f\"{nbits}'d{value}\""),
+    _m('cast-comparison-flipped', YB1, "      if cur_nbits > nbits:\n        if isinstance(", "      if nbits < cur_nbits:\n        if isinstance("),
     _m('seq-block-visit-result-renamed', YB1, "    upblk = super().visit_SeqUpblk( node )\n    return s.get_loopvars() + upblk", "    blk = super().visit_SeqUpblk( node )\n    decls = s.get_loopvars()\n    return decls + blk"),
     _m('port-map-struct-field-keyword-free', T.YS_UTIL, "    if not n_dim:\n      return _mangle_dtype( pname, vname, port, dtype, port_idx )", "    if len(n_dim) == 0:\n      return _mangle_dtype( pname, vname, port, dtype, port_idx )"),
     _m('port-binding-padded-by-spec', YS4, 'p_conn_tplt = ".{port_id: <15}( {port_wire_id} )"', 'p_conn_tplt = ".{port_id: <15}( {port_wire_id:^25} )"'),
@@ -278,7 +295,6 @@ EQUIV = [
     _m('field-port-id-as-fstring', YS2, 'ret += s.dtype_gen( d, id_+"__"+name, field )', 'ret += s.dtype_gen( d, f"{id_}__{name}", field )'),
     _m('counter-decrement-spelled-out', YS2, "          c_nbits -= dec_nbits", "          c_nbits = c_nbits - dec_nbits"),
     _m('first-called-as-keyword', YS2, "_field = s.rtlir_tr_struct_instance( Type, field, False )", "_field = s.rtlir_tr_struct_instance( Type, field, first_called = False )"),
-    _m('cast-comparison-flipped', YB1, "      elif cur_nbits > nbits:", "      elif nbits < cur_nbits:"),
     _m('vector-leaf-width-inlined', YS2, "    nbits = dtype.get_length()\n    assert c_nbits - nbits >= 0", "    nbits = dtype.get_length()\n    assert c_nbits >= nbits"),
     _m('yosys-assign-built-with-format', YS1, 'return f"assign {rd} = {wr};"', 'return "assign {} = {};".format( rd, wr )'),
 ]
